@@ -6,7 +6,25 @@ O: Python integers (`//`, `%`, `pow`, `math.isqrt`, brute force) judge every imp
 Bulk requests (`*_all`, `div_sweep`) loop inside the harness over a whole finite domain and compare
 with native `/` and `%`; the oracle only accepts `ok <expected count>`.
 """
+# SIZE AUDIT (quick tier), measured on cases('quick', Random(1))
+#   op                                   quick max            thorough max   code supports                      boundary classes reached in quick
+#   div_new/divmod64/modu63/modi64/      p: 30 bits, operand  same           p < 2^30 (assert), n: u64 / i64 /  p: prev/next prime of EVERY 2^b, b <= 30, composites, rejected values
+#     modu16/mod_u128 (+ bulk ops)       64 / 128 bits                       u128                               (deterministic); n: multiples of p adjacent to 2^16..2^64, 2^127, 2^128
+#   div_mod_uint/divmod_uint/inplace     1024 bits (w=4,8,16) same           BUint<4|8|16>                      all-ones / 2^(64j) +- 1 styles x every p: reached (hundreds)
+#   inverter/inverter_new/inverter_all   p: 28 bits           same           p < 2^28 (debug_assert)            prev/next prime of every 2^b, b = 7..28 (deterministic)
+#   inv_mod64                            64 bits              same           u64                                2^63 +- 1, 2^64 - s: 1/6 of 400 draws each: reached
+#   isqrt / squfof_isqrt                 64 bits              same           u64                                every 2^k - 1, 2^k, 2^k + 1, k < 64; (2^32-1)^2 etc. (deterministic)
+#   perfect_power                        64 bits              same           u64                                r^k +- 1 for r up to 2^32 - 1 (deterministic)
+#   sqrt_mod (u64)                       p: 32 bits           same           p < 2^32 (products in u64)         BEFORE: p = 3 mod 4 at 2^32 - 5 once; p = 1 mod 4 next to 2^31 / 2^32 only
+#                                                                                                               through rand_prime(7..32 bits) x 60 (about 2 draws of 32 bits) -> ADDED
+#   pow_mod / mulmod (u64)               p: 32 bits           same           p <= 2^32                          BEFORE: random widths 2..32, (p-1)^2 next to 2^64 about 4 draws -> ADDED
+#   sqrt_mod_uint                        p: 511 bits          same           p < 2^512 (products in U1024)      BEFORE: widths by rng.choice({65,100,128,129,192,256,300,384,500,511}) x 40,
+#                                                                                                               never 63/64, 255/257, 447..449, 512 (the largest width) -> ADDED
+#   pow_mod_uint / mulmod_uint           p: 512 bits          same           p < 2^512                          BEFORE: 60 random moduli (1..8 words) -> ADDED exact widths, (p-1)^2 next to 2^1024
+#   isqrt_uint / perfect_power_uint      1024 bits            same           U1024                              BEFORE: random word counts; 2^(2h) - 1, 2^(2h), 2^(2h) + 1 only by chance -> ADDED
+# Added: boundary_cases (both tiers, first).
 import math
+import random
 from vlib.pipeline import Case
 from vlib import gen
 
@@ -52,7 +70,9 @@ HYPOTHESES = []
 PROFILES = ["release", "chk"]
 TIMEOUT = 60.0
 W = 1 << 64
-RULE = ("divisors: all primes < 2^12, primes adjacent to every 2^b (b <= 30), random 30-bit primes, accepted composites, "
+RULE = ("first, in both tiers, a deterministic boundary family: sqrt_mod / pow_mod / mulmod with p next to 2^16, 2^31 and 2^32 (every class of p mod 8, operands p-1 "
+        "and 2^64-1), their U1024 instances with p of exactly 63..65, 127..129, 255..257, 383..385, 447..449, 499, 500, 511, 512 bits (and 513 bits: checked "
+        "profile against the model), isqrt_uint / perfect_power_uint next to 2^64, 2^128, 2^256, 2^512, 2^1024; then divisors: all primes < 2^12, primes adjacent to every 2^b (b <= 30), random 30-bit primes, accepted composites, "
         "rejected values; operands: 0, p-1, p, multiples of p adjacent to 2^16..2^64, 2^127, 2^128, i64::MIN/MAX, "
         "multiword values with all-ones/zero words; whole finite domains through the bulk ops (modu16: every prime < 2^16 x every n; "
         "inverter: every x for every prime < 2^12; sqrt_mod: every residue for every prime < 2^11; thorough: 2^15 / 2^14); "
@@ -259,7 +279,96 @@ def sqrt_special_primes():
     return out
 
 
+def _fork(rng, label):
+    """own stream for the boundary family: depends on the run's seed, leaves the stream of the older families untouched"""
+    return random.Random(f"{label}:{rng.getstate()[1][:4]}")
+
+
+UINT_BOUNDARY_BITS = [63, 64, 65, 127, 128, 129, 255, 256, 257, 383, 384, 385, 447, 448, 449, 499, 500, 511, 512]
+
+
+def prime_below(top, cls, mod):
+    """largest prime below top in the residue class cls modulo mod"""
+    p = top - 1
+    while not (p % mod == cls and gen.is_prime(p)):
+        p -= 1
+    return p
+
+
+def prime_above(top, cls, mod):
+    p = top + 1
+    while not (p % mod == cls and gen.is_prime(p)):
+        p += 1
+    return p
+
+
+def boundary_cases(rng, tier):
+    """deterministic size classes (both tiers, yielded first): the generic routines at the ends of the range where their
+    products fit the type (u64: p < 2^32, U1024: p < 2^512) and at the word boundaries below"""
+    # ---- sqrt_mod, u64 instance: p next to 2^16, 2^31, 2^32 in the classes 3, 7 mod 8 (exponentiation), 5 mod 8 and 1 mod 8 (search loop)
+    for b in (16, 31, 32):
+        for cls in (3, 7, 5, 1):
+            ps = [prime_below(1 << b, cls, 8)] + ([prime_above(1 << b, cls, 8)] if b < 32 else [])
+            for p in ps:
+                if p % 4 != 3 and tz(p - 1) > 12:
+                    continue
+                r = rng.randrange(1, p)
+                non = next(n for n in range(2, 200) if pow(n, (p - 1) // 2, p) != 1)
+                for n in (r * r % p, non, p - 1, W - 1, W - 1 - rng.getrandbits(20), (p - 1) * (p - 1)):
+                    yield mk(f"sqrt_mod {n} {p}", tag="edge")
+    yield mk(f"sqrt_mod {W - 1} {prime_above(1 << 32, 3, 4)}", tag="edge")            # above the domain: checked profile against the model
+    # ---- pow_mod / mulmod, u64 instance: (p-1)^2 next to 2^64
+    for p in ((1 << 32) - 1, (1 << 32) - 5, (1 << 32) - 2, (1 << 31) - 1, 1 << 31, (1 << 31) + 1, (1 << 31) + 11, 65535, 65536, 65537,
+              1 << 32, (1 << 32) + 1, (1 << 32) + 15):
+        for n in (p - 1, p - 2, W - 1, rng.getrandbits(64)):
+            for k in (2, p - 1, W - 1, rng.getrandbits(64)):
+                yield mk(f"pow_mod {n} {k} {p}", tag="edge")
+        yield mk(f"mulmod {p - 1} {p - 1} {p}", tag="edge")
+        yield mk(f"mulmod {p - 1} {p - 2} {p}", tag="edge")
+        yield mk(f"mulmod {rng.randrange(p)} {p - 1} {p}", tag="edge")
+    # ---- U1024 instances: p of exactly b bits
+    for b in UINT_BOUNDARY_BITS:
+        top = 1 << b
+        p3 = prime_below(top - rng.getrandbits(b // 2), 3, 4)            # p = 3 mod 4: one exponentiation
+        assert p3.bit_length() == b
+        ps = [p3]
+        if b in (64, 128, 256, 448, 512):
+            ps.append(prime_below(top, 5, 8))                             # the search loop, largest prime of the class with b bits
+        for p in ps:
+            r = rng.randrange(1, p)
+            for n in (r * r % p, rng.randrange(p), p - 1, (1 << 1024) - 1 - rng.getrandbits(64)):
+                yield mk(f"sqrt_mod_uint {n} {p}", tag="edge")
+        for p in (top - rng.choice([1, 3, 5, 59]), (top >> 1) + 1, p3):
+            for n, k in ((p - 1, 2), (p - 1, p - 1), (p - 2, rng.getrandbits(1024)), (rng.getrandbits(1024), (1 << 1024) - 1)):
+                yield mk(f"pow_mod_uint {n} {k} {p}", tag="edge")
+            yield mk(f"mulmod_uint {p - 1} {p - 1} {p}", tag="edge")
+            yield mk(f"mulmod_uint {p - 1} {rng.randrange(p)} {p}", tag="edge")
+    # one step above the domain (p >= 2^512: the square of a residue may exceed 1024 bits): checked profile against the model
+    pa = prime_above(1 << 512, 3, 4)
+    yield mk(f"sqrt_mod_uint {pa - 1} {pa}", tag="edge")
+    yield mk(f"pow_mod_uint {pa - 1} 3 {pa}", tag="edge")
+    yield mk(f"mulmod_uint {pa - 1} {pa - 1} {pa}", tag="edge")
+    # ---- isqrt / perfect_power, U1024 instance: next to the squares 2^(2h) and the ends of the type
+    for h in (16, 32, 64, 96, 128, 192, 256, 384, 448, 511, 512):
+        r = (1 << h) - 1
+        for n in (r * r - 1, r * r, r * r + 1, r * r + 2 * r - 1, r * r + 2 * r, (r + 1) * (r + 1), (r + 1) * (r + 1) + 1):
+            if n < 1 << 1024:
+                yield mk(f"isqrt_uint {n}", tag="edge")
+                yield mk(f"perfect_power_uint {n}", tag="edge")
+    for b in (64, 128, 256, 512, 1024):
+        for base in (3, 5, 7, 10, 65537):
+            k = 1
+            while base ** (k + 1) < 1 << b:
+                k += 1
+            for n in (base ** k, base ** k + 1, base ** k - 1):              # the largest power of base below 2^b
+                yield mk(f"perfect_power_uint {n}", tag="edge")
+        q = gen.prev_prime(1 << (b // 2))
+        yield mk(f"perfect_power_uint {q * q}", tag="edge")                   # largest prime square below 2^b
+        yield mk(f"isqrt_uint {q * q - 1}", tag="edge")
+
+
 def cases(tier, rng, extended=False):
+    yield from boundary_cases(_fork(rng, "C08-boundary"), tier)
     quick = tier == "quick"
     small, edge, comps, bad = divider_set(rng, tier)
     mult = 10 if extended else 1
